@@ -154,7 +154,10 @@ let () =
             let sl = slots.(i) in
             if not sl.alive then pr "connect %d dead" i
             else (match sl.peer with
-                | None -> pr "connect %d no-reply" i
+                | None ->
+                  (* the server has not answered: the client's read gives up with EAGAIN *)
+                  sl.client_up <- sl.raw;
+                  pr "connect %d -%s" i (string_of_z aDM_EAGAIN)
                 | Some p ->
                   let r = connect_result !tr p (st sl.ord) in
                   sl.finned <- true;
